@@ -124,3 +124,7 @@ Theorem C03_code_filesystem_source :
   fn_body Gen.Fs.FileSystem_path_of = Tie.Fs.expected_FileSystem_path_of /\
   fn_body Gen.Fs.FileSystem_read_dir = Tie.Fs.expected_FileSystem_read_dir.
 Proof. exact Tie.Fs.filesystem_source_as_modelled. Qed.
+
+(* one path through load_from_source whatever the number of extensions: the loop, then default_value *)
+Theorem C03_code_load_from_source_has_one_path : load_from_source_shape Gen.Asset.load_from_source = true.
+Proof. exact load_from_source_has_one_path. Qed.
